@@ -283,4 +283,163 @@ def pairOps (stride : Nat) : List String := Id.run do
                            s!"pos position fen {stem} moves {Spec.moveText m1} {Spec.moveText m2}"]
   return out
 
+/-- mirror: ranks flipped, colours swapped, side swapped -/
+def mirrorPos (P : Spec.Position) : Spec.Position :=
+  { P with
+    cells := Array.ofFn (n := 64) fun i =>
+      (P.at ⟨i.val % 8, 7 - i.val / 8⟩).map fun pc => ⟨pc.color.opp, pc.kind⟩
+    side := P.side.opp, wks := P.bks, wqs := P.bqs, bks := P.wks, bqs := P.wqs,
+    ep := P.ep.map fun e => ⟨e.file, 7 - e.rank⟩ }
+
+/-- arbitrary placement (legal or not): up to `n` random pieces of any kind anywhere -/
+def randomPlacement (n : Nat) : G Spec.Position := do
+  let mut P : Spec.Position :=
+    { cells := Array.replicate 64 none, side := .white, wks := false, wqs := false, bks := false, bqs := false, ep := none }
+  for _ in [0:n] do
+    let s : Spec.Sq := ⟨← below 8, ← below 8⟩
+    let k ← pick [Kind.pawn, .knight, .bishop, .rook, .queen, .queen, .king]
+    let c ← if ← chance 1 2 then pure Color.white else pure Color.black
+    P := P.put s (some ⟨c, k⟩)
+  let side ← if ← chance 1 2 then pure Color.white else pure Color.black
+  return { P with side := side }
+
+def evalRelLine (P : Spec.Position) (other : Spec.Position) : String :=
+  let flip := { P with side := P.side.opp }
+  s!"evalrel {Spec.toFen P 0 1}|{Spec.toFen (mirrorPos P) 0 1}|{Spec.toFen flip 0 1}|{Spec.toFen other 7 300}"
+
+def evalOps (n : Nat) : G (List String) := do
+  let mut out : List String := []
+  -- single piece basis, exhaustive: 12 pieces x 64 squares
+  for c in [Color.white, Color.black] do
+    for k in [Kind.pawn, .knight, .bishop, .rook, .queen, .king] do
+      for s in Spec.allSquares do
+        let P : Spec.Position :=
+          { cells := Array.replicate 64 none, side := .white, wks := false, wqs := false, bks := false, bqs := false, ep := none }
+        let P := P.put s (some ⟨c, k⟩)
+        out := out ++ [evalRelLine P { P with wks := true, bqs := true }]
+  for _ in [0:n] do
+    let cnt ← pick [1, 2, 3, 5, 8, 12, 16, 24, 32, 40, 64]
+    let P ← randomPlacement cnt
+    let epf ← below 8
+    let hasEp ← chance 1 2
+    let other := { P with wks := ← chance 1 2, wqs := ← chance 1 2, bks := ← chance 1 2, bqs := ← chance 1 2,
+                          ep := if hasEp then some ⟨epf, 2⟩ else none }
+    out := out ++ [evalRelLine P other]
+  return out
+
+/-- positions for search ops: a stem, a random legal playout, then the search op(s) -/
+def searchOps (n maxPlies : Nat) (sops : List String) : G (List String) := do
+  let mut out : List String := []
+  for gi in [0:n] do
+    let stem := stems.getD (gi % stems.length) ""
+    let P := parseStem stem
+    let len ← below (maxPlies + 1)
+    let (ms, Q) ← playout P len
+    if !(Spec.legalMoves Q).isEmpty then
+      let mv := if ms.isEmpty then "" else " moves " ++ " ".intercalate ms
+      out := out ++ [s!"pos position fen {stem}{mv}"] ++ sops
+  return out
+
+def quietMove (P : Spec.Position) (m : Spec.Move) : Bool :=
+  (P.at m.dst).isNone && m.promo.isNone && !Spec.isCastle P m &&
+  (match P.at m.src with | some pc => pc.kind != .pawn | none => false)
+
+/-- a reversible four-move cycle from `P` (m1, m2, m1⁻¹, m2⁻¹), if one exists -/
+def findCycle (P : Spec.Position) : G (Option (List Spec.Move)) := do
+  let c1 := (Spec.legalMoves P).filter (quietMove P)
+  if c1.isEmpty then return none
+  let m1 ← pick c1
+  let P1 := Spec.apply P m1
+  let c2 := (Spec.legalMoves P1).filter (quietMove P1)
+  if c2.isEmpty then return none
+  let m2 ← pick c2
+  let P2 := Spec.apply P1 m2
+  let r1 : Spec.Move := ⟨m1.dst, m1.src, none⟩
+  let r2 : Spec.Move := ⟨m2.dst, m2.src, none⟩
+  if !(Spec.legal P2 r1 && quietMove P2 r1) then return none
+  let P3 := Spec.apply P2 r1
+  if !(Spec.legal P3 r2 && quietMove P3 r2) then return none
+  let P4 := Spec.apply P3 r2
+  -- rights may have changed (king/rook shuffles): require a true repetition
+  if Spec.coreText P4 != Spec.coreText P then return none
+  return some [m1, m2, r1, r2]
+
+/-- histories with repetitions: playout, then a 4-cycle repeated r times (optionally cut short) -/
+def repOps (n maxPlies maxRep : Nat) (sops : List String) : G (List String) := do
+  let mut out : List String := []
+  for gi in [0:n] do
+    let stem := stems.getD (gi % stems.length) ""
+    let P := parseStem stem
+    let len ← below (maxPlies + 1)
+    let (ms, Q) ← playout P len
+    -- make sure the cycle does not start from a position carrying an en passant target
+    match ← findCycle Q with
+    | none => pure ()
+    | some cyc =>
+      let r ← below (maxRep + 1)
+      let cut ← below 4
+      let cycT := cyc.map Spec.moveText
+      let reps := ((List.replicate r cycT).flatten ++ cycT.take cut)
+      let all := ms ++ reps
+      if !all.isEmpty then
+        out := out ++ [s!"pos position fen {stem} moves {" ".intercalate all}", "gen all"] ++ sops
+  return out
+
+def isMateNow (P : Spec.Position) : Bool := Spec.inCheck P P.side && (Spec.legalMoves P).isEmpty
+
+/-- some legal move mates at once (only checking moves need the expensive reply enumeration) -/
+def hasMateInOne (P : Spec.Position) : Bool :=
+  (Spec.legalMoves P).any fun m =>
+    let Q := Spec.apply P m
+    Spec.inCheck Q Q.side && (Spec.legalMoves Q).isEmpty
+
+def materialSets : List (List Piece) := [
+  [⟨.white, .queen⟩], [⟨.white, .rook⟩], [⟨.white, .rook⟩, ⟨.white, .rook⟩], [⟨.white, .queen⟩, ⟨.black, .pawn⟩],
+  [⟨.white, .rook⟩, ⟨.black, .pawn⟩, ⟨.black, .pawn⟩], [⟨.white, .bishop⟩, ⟨.white, .knight⟩, ⟨.black, .pawn⟩],
+  [⟨.white, .queen⟩, ⟨.black, .rook⟩], [⟨.white, .pawn⟩, ⟨.white, .pawn⟩, ⟨.black, .pawn⟩],
+  [⟨.white, .queen⟩, ⟨.white, .knight⟩, ⟨.black, .rook⟩, ⟨.black, .pawn⟩, ⟨.black, .pawn⟩],
+  [⟨.white, .rook⟩, ⟨.white, .bishop⟩, ⟨.black, .knight⟩, ⟨.black, .pawn⟩, ⟨.black, .pawn⟩, ⟨.black, .pawn⟩],
+  [⟨.white, .queen⟩, ⟨.white, .rook⟩, ⟨.black, .queen⟩, ⟨.black, .pawn⟩, ⟨.black, .pawn⟩, ⟨.white, .pawn⟩]]
+
+/-- positions near mate / stalemate: small material, enemy king pushed to the rim half of the time;
+    kept when the side to move has a mate in one, is in check, or has at most three legal moves
+    (or unconditionally with probability 1/8) -/
+def mateNeighbourhood : Nat → G (Option Spec.Position)
+  | 0 => return none
+  | tries + 1 => do
+    let mat ← pick materialSets
+    let swap ← chance 1 2
+    let mut P : Spec.Position :=
+      { cells := Array.replicate 64 none, side := .white, wks := false, wqs := false, bks := false, bqs := false, ep := none }
+    let rim ← chance 1 2
+    let bk : Spec.Sq ← if rim then do
+        let f ← below 8
+        let edge ← below 4
+        pure (match edge with | 0 => ⟨f, 0⟩ | 1 => ⟨f, 7⟩ | 2 => ⟨0, f⟩ | _ => ⟨7, f⟩)
+      else do pure ⟨← below 8, ← below 8⟩
+    let wk : Spec.Sq := ⟨← below 8, ← below 8⟩
+    if wk == bk then return ← mateNeighbourhood tries
+    let col (c : Color) : Color := if swap then c.opp else c
+    P := (P.put wk (some ⟨col .white, .king⟩)).put bk (some ⟨col .black, .king⟩)
+    for pc in mat do
+      let s : Spec.Sq := ⟨← below 8, ← below 8⟩
+      if (P.at s).isNone && !(pc.kind == .pawn && (s.rank == 0 || s.rank == 7)) then
+        P := P.put s (some ⟨col pc.color, pc.kind⟩)
+    let side ← if ← chance 2 3 then pure (col .white) else pure (col .black)
+    P := { P with side := side }
+    if !Spec.LegalPosition P then return ← mateNeighbourhood tries
+    let ms := Spec.legalMoves P
+    if ms.isEmpty then return ← mateNeighbourhood tries
+    let keepAnyway ← chance 1 8
+    if keepAnyway || ms.length ≤ 3 || Spec.inCheck P P.side || hasMateInOne P then return some P
+    else mateNeighbourhood tries
+
+def mateOps (n : Nat) (sops : List String) : G (List String) := do
+  let mut out : List String := []
+  for _ in [0:n] do
+    match ← mateNeighbourhood 200 with
+    | some P => out := out ++ [s!"pos position fen {Spec.toFen P 0 1}"] ++ sops
+    | none => pure ()
+  return out
+
 def runG {α : Type} (seed : Nat) (g : G α) : α := (g.run ⟨UInt64.ofNat seed⟩).1
